@@ -770,7 +770,10 @@ impl Edges {
         // seem efficient.
         for version in versions {
             let specifier = VersionSpecifier::equals_version(version.clone());
-            let specifier = python_version_to_full_version(specifier)?;
+            // A version that `python_version` can never be equal to makes `in` always `false`
+            // and `not in` always `true`.
+            let specifier = python_version_to_full_version(specifier)
+                .map_err(|node| if negated { node.not() } else { node })?;
             let pubgrub_specifier = release_specifier_to_range(normalize_specifier(specifier));
             range = range.union(&pubgrub_specifier);
         }
